@@ -360,3 +360,49 @@ def ef2_ctor_subst_bad(es, nbits, enable_inf, nk, eoffset, nan_value, inf_value)
                               fits_p(wr._c, p) and grid_ok(wr._exp, wr._c, emin - p)
                               and not mag_lt_ec(mexp, mc, wr._exp, wr._c))))
     return bad_nan or bad_inf
+
+
+def mpbx2_fin_member(nmin, pos, neg, enable_neg_zero, vr):
+    """finite (s, exp, c) is a member of MPBFixedFormat(nmin, pos, neg, ..., enable_neg_zero)"""
+    return ite(vr._c == 0, (not vr._s) or enable_neg_zero,
+               grid_ok(vr._exp, vr._c, nmin)
+               and not mag_lt_ec(ite(vr._s, neg._exp, pos._exp), ite(vr._s, neg._c, pos._c), vr._exp, vr._c))
+
+
+def mpbx2_member(k, v):
+    """Float v is a member of the MPBFixedContext k's format"""
+    return ite(v._isnan, k.enable_nan, ite(v._isinf, k.enable_inf,
+               mpbx2_fin_member(k.nmin, k.pos_maxval, k.neg_maxval, k.enable_neg_zero, v._real)))
+
+
+def mpbx2_subst_bad(nmin, maxval, neg_maxval, enable_nan, enable_inf, enable_neg_zero, nan_value, inf_value):
+    """MPBFixedContext.__init__: a configured substitute is not a member of the format being constructed"""
+    nexp = maxval._exp if neg_maxval is None else neg_maxval._exp
+    nc = maxval._c if neg_maxval is None else neg_maxval._c
+    bad_nan = False
+    if nan_value is not None:
+        vr = nan_value._real
+        bad_nan = not enable_nan and not ite(nan_value._isnan, enable_nan, ite(nan_value._isinf, enable_inf,
+                      ite(vr._c == 0, (not vr._s) or enable_neg_zero,
+                          grid_ok(vr._exp, vr._c, nmin)
+                          and not mag_lt_ec(ite(vr._s, nexp, maxval._exp), ite(vr._s, nc, maxval._c), vr._exp, vr._c))))
+    bad_inf = False
+    if inf_value is not None:
+        wr = inf_value._real
+        bad_inf = not enable_inf and not ite(inf_value._isnan, enable_nan, ite(inf_value._isinf, enable_inf,
+                      ite(wr._c == 0, (not wr._s) or enable_neg_zero,
+                          grid_ok(wr._exp, wr._c, nmin)
+                          and not mag_lt_ec(ite(wr._s, nexp, maxval._exp), ite(wr._s, nc, maxval._c), wr._exp, wr._c))))
+    return bad_nan or bad_inf
+
+
+def exp2_inf_bad(nbits, eoffset, inf_value):
+    """ExpContext.__init__: the infinity substitute is not a power of two within the exponent range"""
+    if nbits <= 0 or inf_value is None:
+        return False
+    emax = pow2(nbits - 1) - 1 + eoffset
+    emin = eoffset - (pow2(nbits - 1) - 1)
+    wr = inf_value._real
+    e = wr._exp + bl(wr._c) - 1
+    return not (fl_finite(inf_value) and not wr._s and wr._c != 0 and wr._c == pow2(bl(wr._c) - 1)
+                and emin <= e and e <= emax)
